@@ -1,10 +1,10 @@
 (* C36 — property theorems only.  Model: PP.Model.C36 (transcription of ArraySlicer after
    the repair commit); proofs: PP.Proofs.C36.
-   [ext_scalar]/[ext_mat] stand for numpy/scipy's arithmetic in a pending operation
-   (eval "A op sliced"); every theorem holds for ANY such functions. *)
+   [ext_scalar]/[ext_mat]/[ext_ad] stand for numpy/scipy/AdArray arithmetic in a pending
+   operation (eval "A op sliced"); every theorem holds for ANY such functions. *)
 From Coq Require Import List ZArith Arith Lia.
 Import ListNotations.
-From PP Require Import Model.C36 Proofs.C36.
+From PP Require Import Lib.Csr Model.C36 Proofs.C36 Model.C36_flat Proofs.C36_flat.
 
 (* S @ x = P x : for every well-formed slicer with distinct range indices and every operand
    with domain_size rows — vector, 2-D array, sparse matrix (stored rows; compared as dense
@@ -27,7 +27,7 @@ Theorem C36_constructor_wf :
     construct d r rs ds = Ok s ->
     length (dom s) = length (rng s) ->
     Forall (fun i => i < dsize s) (dom s) -> Forall (fun i => i < rsize s) (rng s) ->
-    wf_slicer s /\ pend s = None.
+    wf_slicer s /\ pend s = [].
 Proof. exact construct_wf. Qed.
 Print Assumptions C36_constructor_wf.
 
@@ -36,45 +36,80 @@ Theorem C36_transpose :
   forall s : slicer,
     denote (transpose s) = mtranspose (rsize s) (dsize s) (denote s) /\
     (wf_slicer s -> wf_slicer (transpose s)) /\
-    rng (transpose s) = dom s /\ pend (transpose s) = None.
+    rng (transpose s) = dom s /\ pend (transpose s) = [].
 Proof.
   intros s. split; [exact (transpose_denote s)|]. split; [exact (transpose_wf s)|].
   split; reflexivity.
 Qed.
 Print Assumptions C36_transpose.
 
-(* Chains of ANY length.  In a heap [h] produced by the repaired code, python's evaluation
-   of  S_cur @ S_j1 @ ... @ S_jn @ x  (each @ between slicers allocates a new object; the
-   right operands S_j* carry no pending operand) gives, for fitting sizes,
-       tail (P_cur (P_j1 ( ... (P_jn x))))
-   where the P are the explicit matrices and [tail] is the pending operation of S_cur, if
-   it has one (A op S_cur @ ... : tail = A op _ ; otherwise the identity). *)
+(* COMPOSITION, no guard.  In any heap [h] produced by the repaired code, for ANY two
+   objects S_i, S_j (each with or without pending pairs of its own):  S_i @ S_j  is a new
+   object, S_i and S_j are untouched, and  (S_i @ S_j) @ x = S_i @ (S_j @ x)  — value or
+   error.  (False for the code before the second repair: C36_overwrite_variant_refuted.) *)
+Theorem C36_matmul_composes :
+  forall ext_scalar ext_mat ext_ad h i j si sj x,
+    closed h -> nth_error h i = Some si -> nth_error h j = Some sj ->
+    let h' := fst (step ext_scalar ext_mat ext_ad h (SMatSS i j)) in
+    snd (step ext_scalar ext_mat ext_ad h (SMatSS i j)) = ONew (length h) /\
+    nth_error h' i = Some si /\ nth_error h' j = Some sj /\
+    apply_top ext_scalar ext_mat ext_ad h' (length h) x
+    = bind (apply_top ext_scalar ext_mat ext_ad h j x) (apply_top ext_scalar ext_mat ext_ad h i).
+Proof. exact matmul_composes. Qed.
+Print Assumptions C36_matmul_composes.
+
+(* Likewise for a scalar, sparse-matrix or AdArray left operand and op in @ * / ** + - :
+   (A op S_j) @ x = A op (S_j @ x)  for ANY object S_j (pending pairs included). *)
+Theorem C36_rop_composes :
+  forall ext_scalar ext_mat ext_ad h o p j sj x,
+    closed h -> (forall id, o <> OSlicer id) -> nth_error h j = Some sj ->
+    let h' := fst (step ext_scalar ext_mat ext_ad h (SROp o p j)) in
+    snd (step ext_scalar ext_mat ext_ad h (SROp o p j)) = ONew (length h) /\
+    nth_error h' j = Some sj /\
+    apply_top ext_scalar ext_mat ext_ad h' (length h) x
+    = bind (apply_top ext_scalar ext_mat ext_ad h j x) (ext_op ext_scalar ext_mat ext_ad o p).
+Proof. exact rop_composes. Qed.
+Print Assumptions C36_rop_composes.
+
+(* Chains of ANY length over ANY objects:  S_cur @ S_j1 @ ... @ S_jn @ x  (python evaluates
+   from the left, each @ allocates) = S_cur @ (S_j1 @ ( ... (S_jn @ x))). *)
+Theorem C36_chain_general :
+  forall ext_scalar ext_mat ext_ad rest h cur x,
+    closed h -> cur < length h -> Forall (fun j => j < length h) rest ->
+    let h' := fst (run ext_scalar ext_mat ext_ad h (chain_prog cur rest (length h))) in
+    apply_top ext_scalar ext_mat ext_ad h' (chain_top cur rest (length h)) x =
+    bind (run_objs ext_scalar ext_mat ext_ad h (rev rest) x) (apply_top ext_scalar ext_mat ext_ad h cur).
+Proof. exact chain_general. Qed.
+Print Assumptions C36_chain_general.
+
+(* ... and as explicit matrices: for plain slicers S_j* of fitting sizes and a leftmost
+   member S_cur whose pending pairs (if any) are non-slicer operands A_k op_k,
+       result = A_m op_m ( ... (A_1 op_1 (P_cur (P_j1 ( ... (P_jn x))))))            *)
 Theorem C36_chain :
-  forall ext_scalar ext_mat h cur sc rest ss x n,
+  forall ext_scalar ext_mat ext_ad h cur sc rest ss x n,
     closed h -> nth_error h cur = Some sc ->
-    (forall j p, pend sc <> Some (OSlicer j, p)) ->
-    Forall2 (fun j s => nth_error h j = Some s) rest ss ->
-    Forall (fun s => pend s = None) ss ->
+    (forall j p, ~ In (OSlicer j, p) (pend sc)) ->
+    Forall2 (fun j s => nth_error h j = Some s /\ pend s = []) rest ss ->
     chain_ok (rev (sc :: ss)) n -> vfits n x ->
-    let h' := fst (run ext_scalar ext_mat h (chain_prog cur rest (length h))) in
+    let h' := fst (run ext_scalar ext_mat ext_ad h (chain_prog cur rest (length h))) in
     exists y,
-      apply_top ext_scalar ext_mat h' (chain_top cur rest (length h)) x
-      = tail_op ext_scalar ext_mat sc y /\
+      apply_top ext_scalar ext_mat ext_ad h' (chain_top cur rest (length h)) x
+      = tail_op ext_scalar ext_mat ext_ad sc y /\
       dense (out_size (rev (sc :: ss)) n) y
       = fold_right (fun s acc => mat_apply (denote s) acc) (dense n x) (sc :: ss).
 Proof. exact chain_is_matrix_product. Qed.
 Print Assumptions C36_chain.
 
-(* Pending right operand:  (A op S) is a NEW object, S is untouched, and
-   (A op S) @ x = A op (P x)  for op in @ * / ** + - and A a scalar or a sparse matrix. *)
+(* Pending right operand on a plain slicer:  (A op S) @ x = A op (P x). *)
 Theorem C36_pending :
-  forall ext_scalar ext_mat h o p j sj x,
-    (forall id, o <> OSlicer id) -> nth_error h j = Some sj -> pend sj = None ->
+  forall ext_scalar ext_mat ext_ad h o p j sj x,
+    closed h -> (forall id, o <> OSlicer id) -> nth_error h j = Some sj -> pend sj = [] ->
     wf_slicer sj -> NoDup (rng sj) -> vfits (dsize sj) x ->
-    let h' := fst (step ext_scalar ext_mat h (SROp o p j)) in
-    snd (step ext_scalar ext_mat h (SROp o p j)) = ONew (length h) /\
+    let h' := fst (step ext_scalar ext_mat ext_ad h (SROp o p j)) in
+    snd (step ext_scalar ext_mat ext_ad h (SROp o p j)) = ONew (length h) /\
     nth_error h' j = Some sj /\
-    exists y, apply_top ext_scalar ext_mat h' (length h) x = ext_op ext_scalar ext_mat o p y /\
+    exists y, apply_top ext_scalar ext_mat ext_ad h' (length h) x
+              = ext_op ext_scalar ext_mat ext_ad o p y /\
               forall n, dense n y = mat_apply (denote sj) (dense (dsize sj) x).
 Proof. exact pending_is_op_after_matrix. Qed.
 Print Assumptions C36_pending.
@@ -84,39 +119,54 @@ Print Assumptions C36_pending.
    object that exists after prog1 is the same object after prog2, and applying it gives the
    same answer (value or error) as before. *)
 Theorem C36_reuse :
-  forall ext_scalar ext_mat prog1 prog2 i x,
-    let h1 := fst (run ext_scalar ext_mat [] prog1) in
-    let h2 := fst (run ext_scalar ext_mat h1 prog2) in
+  forall ext_scalar ext_mat ext_ad prog1 prog2 i x,
+    let h1 := fst (run ext_scalar ext_mat ext_ad [] prog1) in
+    let h2 := fst (run ext_scalar ext_mat ext_ad h1 prog2) in
     i < length h1 ->
     nth_error h2 i = nth_error h1 i /\
-    apply_top ext_scalar ext_mat h2 i x = apply_top ext_scalar ext_mat h1 i x /\
-    snd (step ext_scalar ext_mat h2 (SApply i x)) = snd (step ext_scalar ext_mat h1 (SApply i x)).
+    apply_top ext_scalar ext_mat ext_ad h2 i x = apply_top ext_scalar ext_mat ext_ad h1 i x /\
+    snd (step ext_scalar ext_mat ext_ad h2 (SApply i x))
+    = snd (step ext_scalar ext_mat ext_ad h1 (SApply i x)).
 Proof. exact reuse_after_history. Qed.
 Print Assumptions C36_reuse.
 
-(* The pre-fix code (x._pending_operand = self on the right operand itself) violates
+(* The original code (x._pending_operand = self on the right operand itself) violates
    C36_reuse: witness S0 = [1,0], S1 = [0,2], x = [10,20,30]. *)
 Theorem C36_reuse_inplace_variant_refuted :
   exists h i j x,
     closed h /\
     let h' := fst (matmul_ss_inplace h i j) in
-    apply_top ext_scalarZ ext_matZ h' j x <> apply_top ext_scalarZ ext_matZ h j x.
+    apply_top ext_scalarZ ext_matZ ext_adZ h' j x <> apply_top ext_scalarZ ext_matZ ext_adZ h j x.
 Proof. exact inplace_variant_refuted. Qed.
 Print Assumptions C36_reuse_inplace_variant_refuted.
 
-(* Open finding: the guard "right operands carry no pending operand" of C36_chain cannot be
-   dropped —  X @ (Y @ S)  answers  X (S x)  instead of  X (Y (S x)). *)
-Theorem C36_chain_pending_right_operand_refuted :
-  exists h i j sj x,
-    closed h /\ nth_error h j = Some sj /\ pend sj <> None /\
-    let h' := fst (step ext_scalarZ ext_matZ h (SMatSS i j)) in
-    apply_top ext_scalarZ ext_matZ h' (length h) x
-    <> bind (apply_top ext_scalarZ ext_matZ h j x) (apply_top ext_scalarZ ext_matZ h i).
-Proof. exact pending_overwritten_refuted. Qed.
-Print Assumptions C36_chain_pending_right_operand_refuted.
+(* The code between the two repairs (copy, then overwrite the single pending pair) violates
+   C36_matmul_composes:  X @ (Y @ S)  answered  X (S x). *)
+Theorem C36_overwrite_variant_refuted :
+  exists h i j x,
+    closed h /\
+    let h' := fst (matmul_ss_overwrite h i j) in
+    apply_top ext_scalarZ ext_matZ ext_adZ h' (length h) x
+    <> bind (apply_top ext_scalarZ ext_matZ ext_adZ h j x) (apply_top ext_scalarZ ext_matZ ext_adZ h i).
+Proof. exact overwrite_variant_refuted. Qed.
+Print Assumptions C36_overwrite_variant_refuted.
+
+(* INDEX-POINTER ARITHMETIC of _slice_matrix (general path), on the flat CSR record
+   (indptr / indices / data): argsort of the range indices, per-row counts behind a leading
+   zero, cumsum, expansion of the row ranges, take.  For every well-formed stored matrix
+   with domain_size rows and every well-formed non-onto slicer with distinct range indices
+   the stored rows of the flat result are exactly what the row-level model [slice_csr]
+   (used by all theorems above) returns; shape = range_size x ncols. *)
+Theorem C36_slice_matrix_index_arithmetic :
+  forall (s : slicer) (A : csr),
+    wf_slicer s -> onto s = false -> NoDup (rng s) -> wf A = true -> nmaj A = dsize s ->
+    slice_csr s (rows A) = Ok (rows (slice_matrix_flat s A)) /\
+    nmaj (slice_matrix_flat s A) = rsize s /\ nmin (slice_matrix_flat s A) = nmin A.
+Proof. exact slice_matrix_flat_refines. Qed.
+Print Assumptions C36_slice_matrix_index_arithmetic.
 
 (* ---------------- non-vacuity ---------------- *)
-Definition ex_s := mkS [0; 2; 3] [0; 4; 1] 7 4 false false None.   (* docstring example 4 *)
+Definition ex_s := mkS [0; 2; 3] [0; 4; 1] 7 4 false false [].   (* docstring example 4 *)
 
 Example C36_nonvacuous_apply :
   wf_slicer ex_s /\ NoDup (rng ex_s) /\
@@ -129,17 +179,41 @@ Proof.
 Qed.
 
 Example C36_nonvacuous_chain :
-  let h := [S_10; S_02; mkS [2; 1; 0] [0; 1; 2] 3 3 false false None] in
+  let h := [S_10; S_02; mkS [2; 1; 0] [0; 1; 2] 3 3 false false []] in
   closed h /\
-  Forall2 (fun j s => nth_error h j = Some s) [1; 2] [S_02; nth 2 h S_10] /\
+  Forall2 (fun j s => nth_error h j = Some s /\ pend s = []) [1; 2] [S_02; nth 2 h S_10] /\
   chain_ok (rev [S_10; S_02; nth 2 h S_10]) 3 /\
-  snd (run ext_scalarZ ext_matZ h
+  snd (run ext_scalarZ ext_matZ ext_adZ h
            (chain_prog 0 [1; 2] 3 ++ [SApply 4 (VVec [10; 20; 30]%Z); SApply 1 (VVec [10; 20; 30]%Z)]))
   = [ONew 3; ONew 4; OVal (VVec [10; 30]%Z); OVal (VVec [10; 30]%Z)].
 Proof.
   cbn zeta. split; [closed_concrete|]. split; [repeat constructor|].
   split; [|vm_compute; reflexivity].
   unfold S_10, S_02, chain_ok, wf_slicer; cbn.
+  repeat split; try reflexivity; try discriminate; repeat constructor; cbn; try lia;
+    intuition (try discriminate; try lia).
+Qed.
+
+(* composition with pending pairs on both sides:  (S0 @ S1) @ (3 + S2)  and  2 * (3 + S2) *)
+Example C36_nonvacuous_composition :
+  let h := [P_201; P_102; P_021] in
+  closed h /\
+  snd (run ext_scalarZ ext_matZ ext_adZ h
+           [SMatSS 0 1; SROp (OScalar 3) PAdd 2; SMatSS 3 4; SROp (OScalar 2) PMul 4;
+            SApply 5 (VVec [10; 20; 30]%Z); SApply 6 (VVec [10; 20; 30]%Z);
+            SApply 2 (VVec [10; 20; 30]%Z)])
+  = [ONew 3; ONew 4; ONew 5; ONew 6; OVal (VVec [23; 33; 13]%Z); OVal (VVec [26; 66; 46]%Z);
+     OVal (VVec [10; 30; 20]%Z)].
+Proof. cbn zeta. split; [closed_concrete|vm_compute; reflexivity]. Qed.
+
+Example C36_nonvacuous_flat :
+  let A := mkcsr 4 3 [0; 2; 2; 4; 5] [2; 0; 1; 1; 0] [1; 0; 3; 4; 7]%Z in
+  let s := mkS [2; 0; 3] [3; 1; 0] 5 4 false false [] in
+  wf_slicer s /\ NoDup (rng s) /\ wf A = true /\ nmaj A = dsize s /\
+  slice_matrix_flat s A = mkcsr 5 3 [0; 1; 3; 3; 5; 5] [0; 2; 0; 1; 1] [7; 1; 0; 3; 4]%Z /\
+  argsort (rng s) = [2; 1; 0].
+Proof.
+  cbn zeta. unfold wf_slicer; cbn.
   repeat split; try reflexivity; try discriminate; repeat constructor; cbn; try lia;
     intuition (try discriminate; try lia).
 Qed.
